@@ -566,22 +566,22 @@ func main() {
 			return "Definition M := Eval vm_compute in mismatches cases.\nPrint M.\nDefinition B := Eval vm_compute in first_bad cases.\nPrint B.\n"
 		}}
 	seqWatchdog = hutil.NewWatchdog(seqHangReporter(sum, cases, *out))
-	modes := modesFor(*prop)
-	for i := 0; i < *n; i++ {
-		m := modes[i%len(modes)]
-		h := genHistory(r, m, *maxSess)
+	samples := 0
+	process := func(m string, h History, withCoq bool) {
 		rn := newRunner(h)
 		res := rn.run()
 		if res.Err != "" {
 			sum.Fail("harness", "cannot interpret the implementation's state: "+res.Err, h)
-			continue
+			return
 		}
-		c, err := rn.coqCase(res)
-		if err != nil {
-			sum.Fail("harness", err.Error(), h)
-			continue
+		if withCoq {
+			c, err := rn.coqCase(res)
+			if err != nil {
+				sum.Fail("harness", err.Error(), h)
+				return
+			}
+			cases.AddDesc(c, h)
 		}
-		cases.AddDesc(c, h)
 		for _, f := range judge(*prop, h, res) {
 			sum.FailKey("oracle", f.key, f.what, map[string]any{"history": h, "detail": f.detail})
 		}
@@ -591,17 +591,39 @@ func main() {
 		if h.Debug {
 			sum.Dist("debug_logging_on")
 		}
+		if !withCoq {
+			sum.Dist("judged_by_the_oracle_only_(no_Coq_case)")
+		}
 		sum.Dist(fmt.Sprintf("sessions_%d", len(h.Plans)))
 		sum.Dist(fmt.Sprintf("ops_%02d-%02d", len(h.Ops)/10*10, len(h.Ops)/10*10+9))
 		sum.Dist(fmt.Sprintf("max_open_%d", st.maxOpen))
+		sum.Dist(fmt.Sprintf("max_pending_at_once_%d", st.maxPending))
+		sum.Dist(fmt.Sprintf("max_held_by_one_session_%02d-%02d", st.maxHeld/8*8, st.maxHeld/8*8+7))
 		sum.Dist(fmt.Sprintf("flushes_%d", st.flushes))
 		sum.Dist(fmt.Sprintf("emitted_%02d-%02d", len(res.Emitted)/10*10, len(res.Emitted)/10*10+9))
-		if i < 3 {
+		if samples < 3 {
+			samples++
 			var ops []string
 			for _, o := range h.Ops {
 				ops = append(ops, o.String())
 			}
 			sum.Sample(map[string]any{"mode": m, "ops": strings.Join(ops, " ; "), "emitted": len(res.Emitted)})
+		}
+	}
+	modes := modesFor(*prop)
+	for i := 0; i < *n; i++ {
+		m := modes[i%len(modes)]
+		process(m, genHistory(r, m, *maxSess), true)
+	}
+	// further families, each from a generator of its own (the histories above stay what they were)
+	for _, fam := range familiesFor(*prop) {
+		fr := hutil.NewRand(seed ^ hashStr(*prop) ^ hashStr("family:"+fam.name))
+		cnt := *n * fam.num / fam.den
+		if cnt < 1 {
+			cnt = 1
+		}
+		for i := 0; i < cnt; i++ {
+			process(fam.name, fam.gen(fr), fam.coq)
 		}
 	}
 	cases.Flush()
@@ -635,15 +657,40 @@ func modesFor(prop string) []string {
 	return []string{"wf", "reuse", "mixed", "cleanup", "faults"}
 }
 
+// family: a further kind of history, generated in addition to the basic modes; num/den of -n histories of it are run;
+// coq: also replayed step by step against the Coq model (long histories are judged by the oracle only: the observed
+// state is printed after every step, and Coq reads literals slowly)
+type family struct {
+	name     string
+	gen      func(r *hutil.Rand) History
+	num, den int
+	coq      bool
+}
+
+func familiesFor(prop string) []family {
+	pending := family{"pending", func(r *hutil.Rand) History { return genPending(r, false) }, 1, 5, true}
+	pendingBig := family{"pending-big", func(r *hutil.Rand) History { return genPending(r, true) }, 1, 2, false}
+	switch prop {
+	case "C01", "C02":
+		return []family{pending, pendingBig}
+	case "C04", "C09", "C16", "C14":
+		return []family{pending}
+	}
+	return []family{pending, pendingBig}
+}
+
 func ruleText(prop string) string {
 	return "histories generated per mode (wf: unique pids/sessions; reuse: chains of sessions sharing a PID; mixed: plus cron/console/su-like sessions and records without session; " +
 		"cleanup: cleanup calls with cut-offs at earlier time boundaries; faults: invalid logins, unparsable PIDs, write budget), 1-6 sessions interleaved in bursts, login at a random split point of its session; " +
+		"family pending: 2-4 sessions waiting for their logins at the same time, each holding 0-12 events (pending-big: up to 40 and the sizes at which a slice grows; judged by the oracle only), opened in any order, filled in turns or one after the other, logins in any order; " +
 		"every call is followed by a dump of the correlator state (per-step simulation against the model) and the " + prop + " oracle runs on the emitted events; " +
 		"non-trivial = at least 2 sessions open at once and at least one hold-queue flush; distinct by op sequence"
 }
 
 type hstats struct {
 	maxOpen    int
+	maxPending int // sessions waiting for their login at the same time
+	maxHeld    int // events held by one session
 	flushes    int
 	nontrivial bool
 }
@@ -653,6 +700,18 @@ func stats(h History, res runResult) hstats {
 	for _, st := range res.Steps {
 		if len(st.Post.Sess) > s.maxOpen {
 			s.maxOpen = len(st.Post.Sess)
+		}
+		pend := 0
+		for _, u := range st.Post.Sess {
+			if u.LoginID < 0 {
+				pend++
+			}
+			if len(u.Cached) > s.maxHeld {
+				s.maxHeld = len(u.Cached)
+			}
+		}
+		if pend > s.maxPending {
+			s.maxPending = pend
 		}
 		if len(st.Out) >= 2 {
 			s.flushes++
